@@ -246,7 +246,27 @@ def run(repo: Repo, chk: Check, thorough: bool = False) -> None:
                f'executed on import in addition to the body ({", ".join(owners)})' if fld in fields_read else
                f'definitions in the `{fld}` block of {", ".join(owners)} are never visited: a function / class / variable bound there on import is '
                'missing from the documentation', gc.loc)
-    chk.require('R03.7', 2)
+    # `body` / `orelse` are statement LISTS on statements but single EXPRESSIONS on ast.IfExp and ast.Lambda (and the walk reaches those
+    # through expression statements): a field value may only be iterated once it is known to be a list
+    cfg_gc = CFG(gc)
+    for lp in [n for n in gc.walk() if isinstance(n, ast.For)]:
+        src = lp.iter
+        if isinstance(src, ast.Name):
+            vals_ = [n.value for n in gc.walk() if isinstance(n, (ast.Assign, ast.AnnAssign)) and n.value is not None and
+                     any(isinstance(t, ast.Name) and t.id == src.id for t in (n.targets if isinstance(n, ast.Assign) else [n.target]))]
+        else:
+            vals_ = [src]
+        from_field = any(isinstance(x, ast.Call) and call_name(x) == 'getattr' for v in vals_ for x in ast.walk(v)) or \
+            any(isinstance(x, ast.Attribute) and x.attr in ('body', 'orelse', 'finalbody') for v in vals_ for x in ast.walk(v))
+        if not from_field:
+            continue
+        guarded = any(pol and isinstance(t, ast.Call) and call_name(t) == 'isinstance' and len(t.args) == 2 and norm(t.args[0]) == norm(src) and
+                      'list' in norm(t.args[1]) for t, pol in cfg_gc.dominating_tests(lp))
+        chk.ob('R03.7', f'astutils.NodeVisitor.get_children :: `{norm(src)[:30]}` is iterated only when it is a list', guarded,
+               'isinstance(..., list) dominates the loop' if guarded else
+               f'`for ... in {norm(src)[:40]}` iterates a field that is a single expression on ast.IfExp / ast.Lambda: a conditional expression used as a '
+               'statement (`print(a) if x else print(b)`) raises TypeError in the walk and the run aborts', repo.loc(gc.mod, lp))
+    chk.require('R03.7', 3)
 
     # ------------------------------------------------------------------ R03.8
     # the three variable handlers are siblings: each may find an attribute that extract_fields() created from a docstring field (@type x,
